@@ -195,6 +195,11 @@ def task_curve(shape, rational, dim):
     return out
 
 
+task_speval.contract_fn = "heavy.BasisFunction.speval_matrix"
+task_evalnodes.contract_fn = "heavy.eval_spline_nodes"
+task_curve.contract_fn = "curves.Curve.eval"
+
+
 # --------------------------------------------------------------------------------------
 def tasks(tier, seed):
     ts = []
